@@ -825,6 +825,12 @@ public:
       }
     }
 
+    // A timed-out drain() puts the service back to Running and re-opens
+    // acceptance. stop() goes on regardless, so it must close acceptance for
+    // good: otherwise a timer scheduled after stop() returned is accepted and
+    // silently never fires (the service thread is gone).
+    _accepting.store(false, std::memory_order_release);
+
     // Now transition to Stopped
     bool expected = true;
     if (_running.compare_exchange_strong(expected, false, std::memory_order_acq_rel))
